@@ -45,9 +45,14 @@ func genC15(t *rapid.T) *C15Case {
 				if len(o.Defaults) == 0 && rapid.IntRange(0, 3).Draw(t, "prepopulate") > 0 {
 					n := rapid.IntRange(2, 6).Draw(t, "nentries")
 					o.Initial = nil
+					numericLooking := rapid.IntRange(0, 2).Draw(t, "numericKeys") == 0
 					for j := 0; j < n; j++ {
 						kk, vk := o.Kind.MapKV()
 						k := fmt.Sprintf("k%d", j)
+						if numericLooking {
+							// distinct string keys that denote the same or neighbouring numbers
+							k = []string{"7", "07", "+7", "007", "3", "12", "intro"}[j%7]
+						}
 						if kk == KInt {
 							k = fmt.Sprint(j * 7)
 						}
